@@ -25,7 +25,9 @@ RULE = ("histories of 3-11 operations on a fresh in-memory cluster of 1-3 nodes 
         "and by name (indexes with and without their dependants, duplicates, already deleted keys, internal channels), "
         "channel-service restarts, counter bumps to the 2^20 boundary; two create requests in overlapping transactions "
         "on one node committed in reverse order, then a restart of that node's channel service over the same DB and "
-        "engines and one more create (keys at or below the persisted counter, never handed out twice); scripted storage "
+        "engines and one more create (keys at or below the persisted counter, never handed out twice); free virtual channels deleted THROUGH a "
+        "node other than the bootstrapper, followed by creates and renames validated on node 1 that mix the deleted "
+        "name with names still in use or take the deleted name twice; scripted storage "
         "faults (every node's engine sits on a file-system wrapper; 'the next meta.json persist on node i fails once', "
         "then a create or rename that runs entirely on node i, issued in a transaction through any node: it must fail "
         "and leave metadata and every engine unchanged and equal); about a quarter of the requests are malformed "
@@ -330,6 +332,50 @@ def gen_case(rng):
                 ops.append({"op": "restart", "gw": gw})
             ops.append({"op": "create", "gw": rng.choice([gw, gw, rng.choice(nodes)]), "chans": [leased_new("pc")],
                         "retrieve": False, "over": False})
+            continue
+        if 0.17 <= y < 0.25 and n >= 2:
+            # a free (leaseholder-less) virtual channel, stored by the bootstrapper, is deleted THROUGH ANOTHER node;
+            # then requests validated on node 1 mix the deleted name with names still in use, or take the deleted
+            # name twice: the name of the deleted channel is free again, every other name is as taken as before
+            fx = sh.fresh(rng, "fx")
+            taken = [nn for nn in sh.live if not nn.endswith("_time") and not nn.startswith("sy_")]
+            if not taken or rng.random() < 0.5:
+                yn = sh.fresh(rng, "fy")
+                yl = rng.choice([1, 1, FREE, rng.choice(nodes)])
+                ops.append({"op": "create", "gw": 1 if yl in (1, FREE) else rng.choice(nodes),
+                            "chans": [_spec(yn, yl, "float64", False, 0, "", True)], "retrieve": False, "over": False})
+                sh.live[yn] = (yl, "free" if yl == FREE else "virtual")
+                taken.append(yn)
+            ops.append({"op": "create", "gw": rng.choice([1, 1] + nodes),
+                        "chans": [_spec(fx, FREE, rng.choice(["float64", "uint8"]), False, 0, "", True)],
+                        "retrieve": False, "over": False})
+            other = rng.choice([g for g in nodes if g != 1])
+            if rng.random() < 0.7:
+                ops.append({"op": "delete", "gw": other, "by": [fx], "dead": [-1], "keys": [0]})
+            else:
+                ops.append({"op": "delete_by_name", "gw": other, "names": [fx]})
+            sh.dead += 1
+
+            def again(nm):
+                l = rng.choice([1, 1, 0, FREE])
+                return _spec(nm, l, "float64", False, 0, "", True)
+            k = rng.random()
+            if k < 0.45:
+                chans = [again(fx), again(rng.choice(taken))]
+                if rng.random() < 0.3:
+                    chans.append(again(sh.fresh(rng, "fz")))
+                rng.shuffle(chans)
+                ops.append({"op": "create", "gw": 1, "chans": chans, "retrieve": False, "over": False})
+            elif k < 0.6:
+                ops.append({"op": "create", "gw": 1, "chans": [again(fx), again(fx)], "retrieve": False, "over": False})
+            else:
+                retr = rng.random() < 0.3
+                for _ in range(2):
+                    ops.append({"op": "create", "gw": 1, "chans": [again(fx)], "retrieve": retr, "over": False})
+                sh.live[fx] = (1, "virtual")
+            if rng.random() < 0.4:
+                l = rng.choice(list(sh.live))
+                ops.append({"op": "rename", "gw": 1, "by": [l], "dead": [-1], "keys": [0], "names": [rng.choice([fx] + taken)]})
             continue
         if y < 0.17:
             # node fn's engine fails the next meta.json persist, once; a request that runs entirely on fn is
@@ -680,6 +726,9 @@ def histogram(case, r):
     for o, st in zip(case["ops"], r.get("steps") or []):
         ks.append("op=%s" % o["op"])
         ks.append("err=%s" % (st["err"] or "ok"))
+        if o["op"] in ("delete", "delete_by_name") and o["gw"] != 1 and not st["err"] and \
+                any(str(x).startswith("fx") for x in (o.get("by") or []) + (o.get("names") or [])):
+            ks.append("free_channel_deleted_through_non_bootstrapper")
         if o["op"] in ("fcreate", "frename"):
             ks.append("fault=%s/%s" % (o["op"], "fired" if st.get("fired") else "not_consumed"))
             if o["fault"] != o["gw"]:
